@@ -39,3 +39,9 @@ Definition exec_scratch (pl : list (bool * nat * Z * list nat * list nat))
            (rl : list (option (nat * bool))) (sl : list (option (Z * Z))) : list Z :=
   let p := map mknode pl in
   flat_map (fun i => oz (scratch Fconc (mkreg rl) (mksg sl) p i)) (seq 0 (length p)).
+
+From UJ Require Import Cache.Link.
+Definition exec_link (pl : list (bool * nat * Z * list nat * list nat))
+           (rl : list (option (nat * bool))) (sl : list (option (Z * Z)))
+           (fresh : option Z) (output : option nat) : list nat :=
+  link_mismatches (mkreg rl) (mksg sl) fresh output (map mknode pl).
